@@ -55,3 +55,8 @@ Definition run_cases {A} (check : A -> N) (l : list A) : N * list (N * N) :=
    implementation's output violates the specification *)
 Definition code (corr_ok spec_ok : bool) : N :=
   ((if corr_ok then 0 else 1) + (if spec_ok then 0 else 2))%N.
+
+(* decide equations between XOR combinations of N values, bit by bit *)
+Ltac xor_ac :=
+  apply N.bits_inj; intro; rewrite ?N.lxor_spec, ?N.bits_0;
+  repeat match goal with |- context [N.testbit ?x ?n] => destruct (N.testbit x n) end; reflexivity.
